@@ -17,9 +17,13 @@ import corpus
 
 GEN_DIR = os.path.join(corpus.HERE, "gen_runner")
 GEN_EXE = os.path.join(corpus.TARGET, "release", "gen_runner")
-# The derived crates are called b0..b15 like those of the shared suites: their binaries get an own target
-# directory, so that a concurrent suite build cannot replace them between build and run.
-TARGET_C11 = os.path.join(corpus.BUILD, "target_c11")
+
+
+def target_dir(tier):
+    """The derived crates are called b0..b15 like those of the shared suites and of the other tier, and cargo does
+    not re-link `target/debug/bK` when a crate of that name is already fresh: every tier gets its own target
+    directory, so that the binaries that are run are the ones that were just built."""
+    return os.path.join(corpus.BUILD, f"target_c11_{tier}")
 KINDS = ["", "_", "@", "$", "!"]
 
 # validator error classes, in matching order (the repetition messages contain the WHITESPACE ones' tail)
@@ -607,8 +611,8 @@ def build_corpus(tier, seed):
 # ---------------------------------------------------------------------------------------------
 # oracle B helpers: compile, and attribute rustc errors to grammars
 
-def _cargo(ws, args):
-    return subprocess.run(["cargo"] + args, cwd=ws, env=dict(corpus.ENV, CARGO_TARGET_DIR=TARGET_C11), capture_output=True, text=True)
+def _cargo(ws, args, tier):
+    return subprocess.run(["cargo"] + args, cwd=ws, env=dict(corpus.ENV, CARGO_TARGET_DIR=target_dir(tier)), capture_output=True, text=True)
 
 
 def failing_bins(stderr):
@@ -621,16 +625,16 @@ def rustc_errors(stderr):
     return stderr[m.start():] if m else stderr[-1500:]
 
 
-def bisect_guilty(glist, stats, suspects=()):
+def bisect_guilty(glist, stats, tier, suspects=()):
     """Grammars of one failing crate whose own derive expansion does not type-check; -> [(g, rustc text)].
     `suspects`: gids whose module contains a line rustc pointed at; they are tried first (1 + |suspects|
     checks when the hint is right), plain bisection otherwise."""
-    ws = os.path.join(common.BUILD, "ws_c11_bisect")
+    ws = os.path.join(common.BUILD, f"ws_c11_bisect_{tier}")
 
     def check(sub):
         subprocess.call(["rm", "-rf", os.path.join(ws, "b0")])
         corpus.emit_workspace(sub, ws, 1, with_pest=False)
-        p = _cargo(ws, ["check", "--offline", "-q"])
+        p = _cargo(ws, ["check", "--offline", "-q"], tier)
         stats["bisect_checks"] = stats.get("bisect_checks", 0) + 1
         return p.returncode == 0, p.stderr
 
@@ -686,11 +690,23 @@ def compile_sample(ctx, sample, tier, stats):
     for attempt in range(4):
         where = corpus.emit_workspace(current, ws, suites.NBINS, with_pest=False)
         t0 = time.time()
-        p = _cargo(ws, ["build", "--offline", "-q", "--keep-going"])
+        p = _cargo(ws, ["build", "--offline", "-q", "--keep-going"], tier)
         if p.returncode != 0 and "keep-going" in p.stderr and "unexpected argument" in p.stderr:
-            p = _cargo(ws, ["build", "--offline", "-q"])
+            p = _cargo(ws, ["build", "--offline", "-q"], tier)
         stats.setdefault("build_s", []).append(round(time.time() - t0, 1))
         if p.returncode == 0:
+            # pin the binaries of *this* build (a hard link keeps the inode whatever a later build does to the target directory)
+            bindir = os.path.join(ws, "bin")
+            os.makedirs(bindir, exist_ok=True)
+            for b in sorted(set(where.values())):
+                dst = os.path.join(bindir, f"b{b}")
+                if os.path.lexists(dst):
+                    os.remove(dst)
+                src = os.path.join(target_dir(tier), "debug", f"b{b}")
+                try:
+                    os.link(src, dst)
+                except OSError:
+                    subprocess.check_call(["cp", src, dst])
             return [g for g in current if not g.get("placeholder")], where
         bins = failing_bins(p.stderr)
         if not bins:
@@ -699,7 +715,7 @@ def compile_sample(ctx, sample, tier, stats):
         guilty = []
         for b in bins:
             glist = [g for g in current if where[g["gid"]] == b and not g.get("placeholder")]
-            found = bisect_guilty(glist, stats, hints.get(b, ()))
+            found = bisect_guilty(glist, stats, tier, hints.get(b, ()))
             if not found:
                 raise RuntimeError(f"crate b{b} of the C11 workspace fails but every grammar of it checks alone:\n" + rustc_errors(p.stderr)[:2000])
             guilty += found
@@ -889,6 +905,7 @@ def check_C11(ctx):
                     c = (g["gid"], rule, entry, "str", 0, 0, s)
                     (probe if j in (0, 1, len(ins) - 1) else cases).append(c)
     by_gid = {g["gid"]: g for g in compiled}
+    ws_dir = os.path.join(common.BUILD, f"ws_c11_{tier}")
     t0 = time.time()
 
     def judge(cs, lines):
@@ -905,10 +922,10 @@ def check_C11(ctx):
                     ctx.violations.append({"what": what, "case": {"grammar": by_gid[c[0]]["text"], "gid": c[0], "rule": c[1], "entry": c[2], "input": c[6]}})
         return bad_gids
     # a first pass with three inputs per (rule, entry): a grammar that hangs costs 20 s per case, so it is reported and dropped here
-    probe_lines = suites.run_bins("b", where, probe, target=TARGET_C11) if probe else []
+    probe_lines = suites.run_bins("b", where, probe, profile="bin", target=ws_dir) if probe else []
     hung = judge(probe, probe_lines)
     cases = [c for c in cases if c[0] not in hung]
-    lines = suites.run_bins("b", where, cases, target=TARGET_C11) if cases else []
+    lines = suites.run_bins("b", where, cases, profile="bin", target=ws_dir) if cases else []
     judge(cases, lines)
     timing["run_s"] = round(time.time() - t0, 1)
     all_cases, all_lines = probe + cases, probe_lines + lines
